@@ -211,6 +211,36 @@ func RequestPlacement(sp *spec.Spec, sv *spec.Service, m *spec.Method, ex *rt.Ex
 			}
 		case valgen.Query:
 			wire, _ = wireOf(h.Query, a.Name)
+			if mm, isMap := vtree.IsMap(val); isMap {
+				// a map travels as name[key]=value pairs under the designed name
+				for k, e := range mm {
+					name := wire + "[" + cases.TextOf(k) + "]"
+					vals, ok := q[name]
+					earr, eIsArr := e.([]any)
+					switch {
+					case !ok:
+						bad("missing", "map entry not found in the query string under %q (query: %s)", name, u.RawQuery)
+					case eIsArr && !listEq(vals, earr):
+						bad("wrong-value", "query %q carries %v, payload value %s", name, vals, vtree.Show(e))
+					case !eIsArr && (len(vals) != 1 || !textEq(vals[0], e)):
+						bad("wrong-value", "query %q carries %v, payload value %s", name, vals, vtree.Show(e))
+					}
+				}
+				for name := range q {
+					if i := strings.Index(name, "["); i > 0 && strings.HasSuffix(name, "]") && name[:i] == wire {
+						found := false
+						for k := range mm {
+							if cases.TextOf(k) == name[i+1:len(name)-1] {
+								found = true
+							}
+						}
+						if !found {
+							bad("spurious-entry", "query carries %q which is no entry of the payload map %s", name, vtree.Show(val))
+						}
+					}
+				}
+				continue
+			}
 			vals, ok := q[wire]
 			switch {
 			case !ok:
